@@ -5,7 +5,7 @@ use rustls::pki_types::{CertificateDer, PrivateKeyDer};
 use rustls::server::ServerConfig;
 use rustls::{ClientConfig, RootCertStore};
 use std::sync::Arc;
-use std::{fs::File, io::BufReader, path::Path};
+use std::{io::BufReader, path::Path};
 
 impl From<rustls::Error> for AnyTlsError {
     fn from(err: rustls::Error) -> Self {
@@ -74,30 +74,30 @@ pub fn create_server_config_from_files<P: AsRef<Path>>(
 ) -> Result<Arc<ServerConfig>> {
     #[cfg(feature = "verif")]
     crate::verif::sync_point("tls.before_cert_read");
-    let cert_file = File::open(&cert_path).map_err(AnyTlsError::Io)?;
-    let mut cert_reader = BufReader::new(cert_file);
+    let cert_pem = std::fs::read(&cert_path).map_err(AnyTlsError::Io)?;
+    #[cfg(feature = "verif")]
+    crate::verif::sync_point("tls.between_cert_and_key");
+    let key_pem = std::fs::read(&key_path).map_err(AnyTlsError::Io)?;
+    #[cfg(feature = "verif")]
+    crate::verif::sync_point("tls.after_key_read");
+    create_server_config_from_pem(&cert_pem, &key_pem)
+}
+
+/// Create a server TLS config from certificate/private key PEM data already in memory.
+pub fn create_server_config_from_pem(cert_pem: &[u8], key_pem: &[u8]) -> Result<Arc<ServerConfig>> {
+    let mut cert_reader = BufReader::new(cert_pem);
     let certs = rustls_pemfile::certs(&mut cert_reader)
         .collect::<std::result::Result<Vec<_>, _>>()
         .map_err(|e| AnyTlsError::Tls(format!("failed to parse certificate: {e}")))?;
     if certs.is_empty() {
-        return Err(AnyTlsError::Tls(format!(
-            "no certificates found in {:?}",
-            cert_path.as_ref()
-        )));
+        return Err(AnyTlsError::Tls("no certificates found in PEM data".to_string()));
     }
 
-    #[cfg(feature = "verif")]
-    crate::verif::sync_point("tls.between_cert_and_key");
-    let key_file = File::open(&key_path).map_err(AnyTlsError::Io)?;
-    let mut key_reader = BufReader::new(key_file);
+    let mut key_reader = BufReader::new(key_pem);
     let key = rustls_pemfile::private_key(&mut key_reader)
         .map_err(|e| AnyTlsError::Tls(format!("failed to parse private key: {e}")))?
-        .ok_or_else(|| {
-            AnyTlsError::Tls(format!("no private key found in {:?}", key_path.as_ref()))
-        })?;
+        .ok_or_else(|| AnyTlsError::Tls("no private key found in PEM data".to_string()))?;
 
-    #[cfg(feature = "verif")]
-    crate::verif::sync_point("tls.after_key_read");
     let config = ServerConfig::builder()
         .with_no_client_auth()
         .with_single_cert(certs, key)?;
